@@ -117,7 +117,7 @@ func (in *Interp) syncPoint(g *G) (isSync bool, ready bool) {
 
 // RunExplore: all interleavings at acquire points (optionally preemption-bounded).
 func (in *Interp) RunExplore(fn *ssa.Function) {
-	main := &G{id: 0}
+	main := &G{id: 0, path: "0"}
 	in.gs = []*G{main}
 	in.cur = main
 	in.runInits(main, fn)
